@@ -362,6 +362,66 @@ fn run_session_once(ctx: &Ctx, lines: &[String], eof_after: Option<usize>, raw_t
     Ok(())
 }
 
+/// One engine process is sent `total_bytes` of valid position commands (growing games of up to
+/// 200 plies), an isready every 40 lines (each must be answered), then quit.
+pub fn volume_session(ctx: &Ctx, total_bytes: usize, rep: &mut Report) -> Result<(), Violation> {
+    let mut eng = match Engine::spawn(&ctx.engine, &[]) {
+        Ok(e) => e,
+        Err(e) => {
+            rep.infra_errors.push(format!("cannot spawn engine: {e}"));
+            return Ok(());
+        }
+    };
+    rep.eval(1);
+    rep.class("volume:megabytes-of-valid-input-in-one-session");
+    rep.nontrivial(o::hash_str(&format!("volume-{total_bytes}")));
+    let replay = json!({"volume_bytes": total_bytes});
+    let mut sent = 0usize;
+    let mut lines = 0usize;
+    let mut game = Game::new(Pos::startpos());
+    let mut h = 0x9e37u64;
+    while sent < total_bytes {
+        let legal = game.cur.legal_moves();
+        if legal.is_empty() || game.moves.len() >= 200 {
+            eng.send("ucinewgame");
+            sent += 11;
+            game = Game::new(Pos::startpos());
+            continue;
+        }
+        h = o::hash_bytes(&h.to_le_bytes(), 7);
+        game.play(legal[(h >> 16) as usize % legal.len()]);
+        let cmd = format!("position startpos moves {}", game.moves_uci().join(" "));
+        sent += cmd.len() + 1;
+        if !eng.send(&cmd) {
+            break;
+        }
+        lines += 1;
+        if lines % 40 == 0 {
+            sent += 8;
+            let mut fine = eng.ready(Duration::from_secs(3));
+            if !fine && main_thread_panicked(&eng).is_none() && eng.try_status().is_none() {
+                fine = eng.wait_for(Duration::from_secs(20), |e| e.stream == Stream::Out && e.line.trim() == "readyok").is_some();
+            }
+            if !fine {
+                let what = match (main_thread_panicked(&eng), eng.try_status()) {
+                    (Some(p), _) => format!("main thread panicked: {p}"),
+                    (None, Some(st)) => format!("engine exited with {st}"),
+                    _ => "engine alive but silent for 23 s".to_string(),
+                };
+                let mut r = replay.clone();
+                r["transcript"] = json!(eng.transcript(12).iter().map(|l| l.chars().take(160).collect::<String>()).collect::<Vec<_>>());
+                return Err(Violation::new("survive", "survive/after-much-input", format!("after {sent} bytes of valid position commands in one session an isready was not answered: {what}"), r));
+            }
+        }
+    }
+    rep.class_n("volume:bytes-sent", sent as u64);
+    eng.send("quit");
+    if eng.wait_exit(Duration::from_secs(23)).is_none() {
+        return Err(Violation::new("quit", "quit/no-exit/after-much-input", format!("after {sent} bytes of input quit did not terminate the engine within 23 s"), replay));
+    }
+    Ok(())
+}
+
 /// One long-lived engine process: `n` searches of 1.2 million nodes on quiet endgames, then one
 /// line of every kind, each followed by isready; ended by quit or by end-of-input.
 pub fn soak_session(ctx: &Ctx, corp: &corpus::Corpus, n: usize, end_quit: bool, rep: &mut Report) -> Result<(), Violation> {
@@ -452,6 +512,12 @@ pub fn run(ctx: &Ctx) -> Report {
     // end-of-input (shard 2)
     if ctx.shard_index() == 1 || ctx.shard_index() == 2 {
         let r = soak_session(ctx, &corp, ctx.tier.pick(8usize, 80), ctx.shard_index() == 1, &mut rep);
+        note(r, &mut rep);
+    }
+    // volume: one session that receives megabytes of perfectly ordinary lines (a GUI re-sending a
+    // growing game, as in a long match), isready every 40 lines; no search is started
+    if ctx.shard_index() == 3 {
+        let r = volume_session(ctx, ctx.tier.pick(4usize, 64) << 20, &mut rep);
         note(r, &mut rep);
     }
     if ctx.shard_index() == 0 {
@@ -572,6 +638,12 @@ pub fn run(ctx: &Ctx) -> Report {
 
 pub fn replay(ctx: &Ctx, case: &Value) -> Report {
     let mut rep = Report::new();
+    if let Some(n) = case["volume_bytes"].as_u64() {
+        if let Err(v) = volume_session(ctx, n as usize, &mut rep) {
+            rep.violation(v);
+        }
+        return rep;
+    }
     if let Some(n) = case["soak"].as_u64() {
         let corp = corpus::load(&ctx.verif);
         if let Err(v) = soak_session(ctx, &corp, n as usize, case["end_quit"].as_bool().unwrap_or(true), &mut rep) {
@@ -589,5 +661,5 @@ pub fn replay(ctx: &Ctx, case: &Value) -> Report {
 }
 
 pub const LEVEL: &str = "exploration";
-pub const RULE: &str = "sessions of 1..25 lines against the real engine binary, each line drawn from a grammar over the UCI vocabulary: the eight commands with well-formed arguments (go budgets that end by themselves), go keywords with the value dropped / duplicated / reordered / replaced by junk (negative, 1e3, 0x10, 40-digit, words, empty, non-ASCII digits), go flags in odd places, setoption with name/value in every order and multiplicity, position with unknown kind / missing 'moves' / empty or illegal or malformed move lists (FEN arguments are always valid FEN, in 6-field and in 4-field form), unknown words, blank lines, tabs, 10 kB lines, non-ASCII text; plus fixed cases: end-of-input at the start, after a line, in the middle of a line, and bytes that are not valid UTF-8. Plus an in-process layer (hook H4): token soups over the vocabulary that never start a search, fed to a session object; any panic is what would have killed the real main thread. Plus a text-mutation layer (fuzzuci.rs, in-process): generator sessions as raw text with 0..6 blind byte/token mutations, every line that does not carry an invalid FEN argument is fed (lines with a go/quit word only through the parser, hook H4b) and must not panic; the thorough tier adds a coverage-guided libFuzzer campaign (target fuzz_uci) over the same oracle. Ending of the process sessions: stop + isready (readyok within 3 s, main thread not panicked) + quit (exit status 0 within 3 s), or end-of-input after a generated line (exit within 3 s); a verdict that rests on the 3 s allowance alone (engine alive and silent, no panic, no output flood) is confirmed by running the same session again, twice, with 20 s, and reported only if it is still there. Plus a soak: two long-lived engine processes (8 quick / 80 thorough searches of 1.2 million nodes each on quiet endgames, so the cache holds hundreds of thousands of entries) are then sent ucinewgame, setoption, position, an unknown word, a truncated go, stop and uci, each followed by isready, and ended by quit / end-of-input. A search-thread panic is C09's subject and ignored here. Non-trivial = session containing at least one malformed line; distinct by (text, ending).";
+pub const RULE: &str = "sessions of 1..25 lines against the real engine binary, each line drawn from a grammar over the UCI vocabulary: the eight commands with well-formed arguments (go budgets that end by themselves), go keywords with the value dropped / duplicated / reordered / replaced by junk (negative, 1e3, 0x10, 40-digit, words, empty, non-ASCII digits), go flags in odd places, setoption with name/value in every order and multiplicity, position with unknown kind / missing 'moves' / empty or illegal or malformed move lists (FEN arguments are always valid FEN, in 6-field and in 4-field form), unknown words, blank lines, tabs, 10 kB lines, non-ASCII text; plus fixed cases: end-of-input at the start, after a line, in the middle of a line, and bytes that are not valid UTF-8. Plus an in-process layer (hook H4): token soups over the vocabulary that never start a search, fed to a session object; any panic is what would have killed the real main thread. Plus a text-mutation layer (fuzzuci.rs, in-process): generator sessions as raw text with 0..6 blind byte/token mutations, every line that does not carry an invalid FEN argument is fed (lines with a go/quit word only through the parser, hook H4b) and must not panic; the thorough tier adds a coverage-guided libFuzzer campaign (target fuzz_uci) over the same oracle. Ending of the process sessions: stop + isready (readyok within 3 s, main thread not panicked) + quit (exit status 0 within 3 s), or end-of-input after a generated line (exit within 3 s); a verdict that rests on the 3 s allowance alone (engine alive and silent, no panic, no output flood) is confirmed by running the same session again, twice, with 20 s, and reported only if it is still there. Plus a soak: two long-lived engine processes (8 quick / 80 thorough searches of 1.2 million nodes each on quiet endgames, so the cache holds hundreds of thousands of entries) are then sent ucinewgame, setoption, position, an unknown word, a truncated go, stop and uci, each followed by isready, and ended by quit / end-of-input. Plus a volume session: one process receives 4 MiB (quick) / 64 MiB (thorough) of ordinary position commands (growing games, ucinewgame in between), isready every 40 lines. A search-thread panic is C09's subject and ignored here. Non-trivial = session containing at least one malformed line; distinct by (text, ending).";
 pub const ASSUMPTIONS: &[&str] = &["FEN arguments are valid (the statement's assumption)", "3 s stands in for 'promptly'; 8 engine processes run concurrently"];
